@@ -164,7 +164,50 @@ pub fn run(tier: Tier) -> i32 {
             }
         }
     }
-    let n_single = cases.len();
+    // 1b. unbalanced and interleaved structure: every sequence of structural lines up to a bound
+    let core_lines: [&str; 20] = [
+        ".macro m", ".endm", "m", ".macro m2", "m2 1, 2", ".if 1", ".if 0", ".ifdef X", ".ifndef X", ".elif 1", ".else", ".endif", ".define X", ".dseg", ".eseg",
+        ".cseg", ".org 2", "nop", ".dw @0", ".exit",
+    ];
+    let extra_lines: [&str; 15] = [
+        ".endmacro", ".elif 0", "lab:", "rjmp lab", ".db 1", ".byte 1", ".equ e = 1", ".set s = s + 1", ".def t = r16", ".undef t", ".device ATtiny13",
+        ".include \"nofile.inc\"", ".error \"x\"", ".message \"x\"", "#endif",
+    ];
+    let n_before_struct = cases.len();
+    {
+        let all_lines: Vec<&str> = core_lines.iter().chain(extra_lines.iter()).copied().collect();
+        let (k_all, k_core) = if tier.thorough() { (4usize, 5usize) } else { (3, 4) };
+        let mut emit = |alphabet: &[&str], k: usize, only_len: Option<usize>| {
+            let mut frontier: Vec<Vec<usize>> = vec![vec![]];
+            for len in 1..=k {
+                let mut next = Vec::with_capacity(frontier.len() * alphabet.len());
+                for f in &frontier {
+                    for a in 0..alphabet.len() {
+                        let mut t = f.clone();
+                        t.push(a);
+                        next.push(t);
+                    }
+                }
+                if only_len.map(|l| l == len).unwrap_or(true) {
+                    for t in &next {
+                        let mut text = String::new();
+                        for a in t {
+                            text.push_str(alphabet[*a]);
+                            text.push('\n');
+                        }
+                        cases.push(Case { kind: b'S', text });
+                        meta.push(Meta { origin: "structural-sequence", head: alphabet[t[0]].to_string(), nops: t.len(), ctx: "none", probe: String::new() });
+                    }
+                }
+                frontier = next;
+            }
+        };
+        emit(&all_lines, k_all, None);
+        // one line longer over the core alphabet (sequences of that length only; shorter ones are above)
+        emit(&core_lines, k_core, Some(k_core));
+    }
+    let n_struct = cases.len() - n_before_struct;
+    let n_single = cases.len() - n_struct;
 
     // 2. structured size probes (geometric ladders, texts up to 64 KiB)
     let ladder = [10usize, 100, 1000, 10000, 30000];
@@ -334,7 +377,7 @@ pub fn run(tier: Tier) -> i32 {
             meta.push(Meta { origin: "size-probe", head: String::new(), nops: 0, ctx: "none", probe: format!("include-chain/n={}", n) });
         }
     }
-    let n_probe = cases.len() - n_single;
+    let n_probe = cases.len() - n_single - n_struct;
 
     // 3. E3 on the corpus: every single token deleted / duplicated / replaced by every dictionary entry
     let known = |m: &str| isa::known_mnemonic(m);
@@ -393,7 +436,7 @@ pub fn run(tier: Tier) -> i32 {
             n_bytemut += 1;
         }
     }
-    let n_mut = cases.len() - n_single - n_probe - n_bytemut;
+    let n_mut = cases.len() - n_single - n_probe - n_bytemut - n_struct;
 
     // run everything in the sandbox
     let cache: Mutex<BTreeMap<String, Vec<String>>> = Mutex::new(BTreeMap::new());
@@ -415,6 +458,7 @@ pub fn run(tier: Tier) -> i32 {
         let shape = match m.origin {
             "size-probe" => format!("probe={}", m.probe.split("/n=").next().unwrap_or("")),
             "corpus-token-mutation" => format!("origin=corpus-token-mutation/head={}", m.head),
+            "structural-sequence" => format!("origin=structural-sequence/first={}", m.head),
             "corpus-byte-mutation" => format!("origin=corpus-byte-mutation/how={}", m.probe.rsplit(':').next().unwrap_or("")),
             _ => format!("ctx={}/head={}", m.ctx, m.head),
         };
@@ -452,9 +496,9 @@ pub fn run(tier: Tier) -> i32 {
     rep.guard(origins.len() >= 5, "not every case origin was generated");
     rep.sample(|| json!({"source": cases[n_single / 3].text, "origin": meta[n_single / 3].origin, "context": meta[n_single / 3].ctx}));
     rep.sample(|| json!({"source": cases[n_single / 2 + 7].text, "origin": meta[n_single / 2 + 7].origin, "context": meta[n_single / 2 + 7].ctx}));
-    rep.sample(|| json!({"probe": meta[n_single + 3].probe, "source_head": cases[n_single + 3].text.chars().take(80).collect::<String>()}));
+    rep.sample(|| json!({"probe": meta[n_single + n_struct + 3].probe, "source_head": cases[n_single + n_struct + 3].text.chars().take(80).collect::<String>()}));
     rep.sample(|| json!({"corpus_byte_mutation": meta[cases.len() - 5].probe, "source": cases[cases.len() - 5].text}));
-    rep.sample(|| json!({"corpus_token_mutation": meta[n_single + n_probe + 5].probe, "source": cases[n_single + n_probe + 5].text}));
+    rep.sample(|| json!({"corpus_token_mutation": meta[n_single + n_struct + n_probe + 5].probe, "source": cases[n_single + n_struct + n_probe + 5].text}));
     rep.assume("the quantifier's 'random multi-line programs and byte mutations up to 64 KiB' is sampling and is not claimed; it is replaced by the systematic token mutations and size probes");
     rep.assume("limits: 5 s per case (re-run alone with 20 s before a hang is reported), 1 GiB address space, 8 MiB stack (what a CLI user gets)");
     rep.assume("ok/err counts come from workers that finished their chunk; cases of a chunk whose worker died are still all executed (the worker is restarted after the failing case)");
@@ -479,6 +523,7 @@ pub fn run(tier: Tier) -> i32 {
         "exhaustive": true,
         "single_line_programs": n_single,
         "size_probes": n_probe,
+        "structural_line_sequences": n_struct,
         "corpus_token_mutations": n_mut,
         "corpus_byte_mutations": n_bytemut,
         "worker_outcomes": {"ok": counts.ok, "err": counts.err, "hard_failures": counts.hard, "worker_restarts": counts.worker_restarts, "timeouts_rechecked": timeouts.lock().unwrap().len(), "confirmed_hangs": confirmed_hangs},
